@@ -95,7 +95,7 @@ Definition m2apply (b b' : base) (m0 : mst2) (te : Z * ev) : mst2 :=
       else
         let m1 := m2upd m i (fun x =>
           let x1 := x <| n_att := None |> <| n_lost := None |> <| n_hdue := None |> <| n_vers := [] |> in
-          let x2 := if cause =? sHealthFail then x1 <| n_hdem := Some (t, n_demotes x1) |> else x1 in
+          let x2 := if (cause =? sHealthFail) && io_flag (inst_of b i) then x1 <| n_hdem := Some (t, n_demotes x1) |> else x1 in
           (* the claim is gone; what remains due is the demotion callback (kept with the same deadline) *)
           x2) in
         (* a deposed leader that has just stopped claiming: the vacancy clock restarts (until now the group had a
@@ -270,7 +270,7 @@ Definition mon2 (b : base) (m0 : mst2) (te : Z * ev) : list alarm :=
   | EFlag i fl cause root gid =>
       let x := m2_of m i in let c := cfg_of b i in
       if zb fl then [] else
-      when ((cause =? sHealthFail) && negb (n_hrun x =? health_thr c)) 1201 ++
+      when ((cause =? sHealthFail) && io_flag (inst_of b i) && negb (n_hrun x =? health_thr c)) 1201 ++
       when ((cause =? sGraceExpired) &&
             match n_disc x with
             | Some (td, _, _) =>
